@@ -1359,7 +1359,19 @@ pub fn generate(seed: u64, thorough: bool, faults: bool) -> GenOut {
             4 => steps.push(Step::Request { method: "textDocument/inlayHint".into(), params: req_params("textDocument/inlayHint", &uri_str(&key), 0, 0), fault: String::new(), id: None }),
             5 => steps.push(Step::Request { method: "textDocument/documentSymbol".into(), params: req_params("textDocument/documentSymbol", &uri_str(&key), 0, 0), fault: String::new(), id: None }),
             6 => {
-                let q = if work.chance(1, 2) { String::new() } else { work.pick(gen::WORDS).to_string() };
+                let q = if work.chance(1, 8) {
+                    // a long query with multi-byte characters at every offset class
+                    let mut q = "x".repeat(work.below(4));
+                    while q.len() < 170 + work.below(120) {
+                        q.push_str(*work.pick(gen::WORDS));
+                        q.push(' ');
+                    }
+                    q
+                } else if work.chance(1, 2) {
+                    String::new()
+                } else {
+                    work.pick(gen::WORDS).to_string()
+                };
                 steps.push(Step::Request { method: "workspace/symbol".into(), params: json!({"query": q}), fault: String::new(), id: None });
             }
             7 => {
@@ -1389,7 +1401,14 @@ pub fn generate(seed: u64, thorough: bool, faults: bool) -> GenOut {
             }
             _ => {
                 if work.chance(1, 2) {
-                    steps.push(Step::Request { method: "completionItem/resolve".into(), params: json!({"label": "x"}), fault: String::new(), id: None });
+                    let mut label = "x".repeat(work.below(4));
+                    if work.chance(1, 2) {
+                        while label.len() < 190 + work.below(80) {
+                            label.push_str(*work.pick(gen::WORDS));
+                            label.push(' ');
+                        }
+                    }
+                    steps.push(Step::Request { method: "completionItem/resolve".into(), params: json!({"label": label}), fault: String::new(), id: None });
                 } else {
                     // legal notifications that carry nothing to apply: they must not disturb later edits
                     match work.below(3) {
